@@ -436,7 +436,7 @@ func checkB(c CaseB) *ev.Violation {
 				owner = t
 			case "column":
 				n := t.NColumns()
-				col := st.Col % (n + 1)
+				col := ((st.Col % (n + 1)) + n + 1) % (n + 1)
 				owner = t.Column(col)
 			case "row":
 				if r := rowOf(st.Ref); r != nil {
@@ -446,7 +446,7 @@ func checkB(c CaseB) *ev.Violation {
 				if r := rowOf(st.Ref); r != nil && len(r.Cells) > 0 {
 					cells := r.Real.Cells()
 					if len(cells) > 0 {
-						owner = &cells[st.Col%len(cells)]
+						owner = &cells[((st.Col%len(cells))+len(cells))%len(cells)]
 					}
 				}
 			}
@@ -461,7 +461,7 @@ func checkB(c CaseB) *ev.Violation {
 			// refreshing a cell's text from its item is no occasion for any callback: nothing is raised
 			if r := rowOf(st.Ref); r != nil && len(r.Cells) > 0 {
 				if cells := r.Real.Cells(); len(cells) > 0 {
-					(&cells[st.Col%len(cells)]).Update()
+					(&cells[((st.Col%len(cells))+len(cells))%len(cells)]).Update()
 				}
 			}
 		case "render":
